@@ -208,12 +208,16 @@ def check(case):
         given = copy.deepcopy(kwargs)
         try:
             obj = cls(**given)
+            # the same values once more: construction must not have consumed or rewritten what it was given
+            obj_again = cls(**given)
         except Exception as e:  # noqa: BLE001
             if k4:
                 r.fail("construct-raises[attrs-field-converter]", f"sample {i}: {type(e).__name__}: {e}\n{src}")
             else:
                 r.fail("construct-raises:" + type(e).__name__, f"sample {i} {oracle.short(s)}: {type(e).__name__}: {e}\n{src}")
             return r
+        if not deep_same(given, kwargs):
+            r.fail("constructor-rewrites-its-arguments", f"sample {i}: passed {oracle.short(kwargs)}, afterwards {oracle.short(given)}\n{src}")
         for key, val in s.items():
             fname, pp = plan[key]
             got = getattr(obj, fname)
